@@ -13,3 +13,6 @@ import TsVerif.C17.Props
 #print axioms TsVerif.C17.normalize_whole
 #print axioms TsVerif.C17.render_roundtrip_whole_fixed
 #print axioms TsVerif.C17.merge_multi_wellformed_partial
+#print axioms TsVerif.C17.merge_multi_wellformed
+#print axioms TsVerif.C17.intersect_ranges_spec
+#print axioms TsVerif.C17.injected_content_inside
